@@ -165,6 +165,17 @@ class PCase:
             self.pents.append({"uid": e["uid"], "attrs": [(k, self.hide(v, pl)) for k, v in e["attrs"]],
                                "tags": e.get("tags", []), "parents": e["parents"]})
         self.partial_store = partial_store
+        self.missing = []
+        if partial_store:
+            # entities absent from the partial store (dereferenced to typed unknowns named by the
+            # uid).  Only entities that are nobody's parent: the ancestor sets of the entities that
+            # stay must already be complete.
+            is_parent = {p for e in w.entities for p in cedar.ancestors_of(w.entities, e["uid"])}
+            cands = [e for e in w.entities if e["uid"] not in is_parent]
+            gone = rng.sample(cands, min(len(cands), rng.choice([1, 1, 2, 3])))
+            self.missing = [dict(e) for e in gone]
+            gone_uids = {e["uid"] for e in gone}
+            self.pents = [e for e in self.pents if e["uid"] not in gone_uids]
 
     def fresh(self, v0):
         n = "u%d" % self.counter
@@ -225,6 +236,11 @@ class PCase:
         out = [self.sigma0(), self.sigma_flip()]
         while len(out) < n:
             out.append(self.sigma_random(awkward=len(out) % 2 == 0))
+        if self.missing:
+            # does the completed store contain the entities the partial store lacked?  (key "\0absent"
+            # is not part of the mapping: it only steers concrete_entities)
+            for k, s in enumerate(out):
+                s["\0absent"] = (k % 4 == 1)
         return out
 
     # ---- concretisation
@@ -239,8 +255,12 @@ class PCase:
         return q
 
     def concrete_entities(self, s):
-        return [{"uid": e["uid"], "attrs": [(k, pv_subst(v, s)) for k, v in e["attrs"]],
-                 "tags": e["tags"], "parents": e["parents"]} for e in self.pents]
+        out = [{"uid": e["uid"], "attrs": [(k, pv_subst(v, s)) for k, v in e["attrs"]],
+                "tags": e["tags"], "parents": e["parents"]} for e in self.pents]
+        if self.missing and not s.get("\0absent"):
+            out += [{"uid": e["uid"], "attrs": e["attrs"], "tags": e.get("tags", []), "parents": e["parents"]}
+                    for e in self.missing]
+        return out
 
     # ---- renderings
     def preq_json(self):
@@ -290,11 +310,11 @@ class PCase:
 
 
 def sigma_json(s):
-    return {n: cedar.value_json(v) for n, v in s.items()}
+    return {n: cedar.value_json(v) for n, v in s.items() if not n.startswith("\0")}
 
 
 def sigma_sx(s):
-    return [[Str(n), cedar.value_sx(v)] for n, v in sorted(s.items())]
+    return [[Str(n), cedar.value_sx(v)] for n, v in sorted(s.items()) if not n.startswith("\0")]
 
 
 # ------------------------------------------------------------------ the fixed world of the operator table
@@ -387,6 +407,7 @@ class TableCase(PCase):
         self.pents = [{"uid": e["uid"], "attrs": [(k, self.hide_u(k, v)) for k, v in e["attrs"]],
                        "tags": e["tags"], "parents": e["parents"]} for e in w.entities]
         self.partial_store = False
+        self.missing = []
 
     def hide_u(self, k, v):
         if not k.startswith("u"):
